@@ -190,7 +190,7 @@ def finish(report, ctx, assumptions, explanation, technique):
             knowns.append((o, known_keys[key]))
         else:
             viols.append(o)
-    evdir = os.path.join(VERIF, 'evidence')
+    evdir = os.environ.get('VERIF_EVIDENCE') or os.path.join(VERIF, 'evidence')   # VERIF_EVIDENCE: scratch runs (self-tests on a scratch worktree) must not overwrite the evidence of /repo
     os.makedirs(os.path.join(evdir, 'replay'), exist_ok=True)
     # stale replay files of this property
     for f in os.listdir(os.path.join(evdir, 'replay')):
